@@ -94,6 +94,9 @@ def build_honest(cfg, who="honest"):
         outs = [(total_in - 9000, "spend", spends[0][1])]
     elif shape == "spend+change":
         outs = [(spends[0][0], "spend", spends[0][1]), (total_in - spends[0][0] - 9000, "change", None)]
+    elif shape == "batch-same+change":
+        # two of the three spend outputs pay the SAME address (first and last), another one in between
+        outs = [(spends[0][0], "spend", spends[0][1]), (total_in - 2 * spends[0][0] - spends[1][0] - 10 - 9000, "change", None), (spends[1][0], "spend", spends[1][1]), (spends[0][0] + 10, "spend", spends[0][1])]
     else:  # batch+change
         outs = [(spends[0][0], "spend", spends[0][1]), (total_in - spends[0][0] - spends[1][0] - 9000, "change", None), (spends[1][0], "spend", spends[1][1])]
     if st == "p2sh":
@@ -146,7 +149,7 @@ def honest(cfg, who="honest"):
 
 
 def change_index(cfg):
-    return {"spend": None, "spend+change": 1, "batch+change": 1}[cfg["shape"]]
+    return {"spend": None, "spend+change": 1, "batch+change": 1, "batch-same+change": 1}[cfg["shape"]]
 
 
 # ------------------------------------------------------------------ the independent rule
@@ -510,6 +513,8 @@ def configs(tier):
                     if tier == "quick" and ((nin == 2) != (shape == "batch+change")) and shape != "spend":
                         continue
                     out.append({"stype": st, "m": m, "n": n, "nin": nin, "shape": shape})
+            if (m, n) == (2, 3) or tier == "thorough":
+                out.append({"stype": st, "m": m, "n": n, "nin": 1, "shape": "batch-same+change"})
     return out
 
 
@@ -1531,7 +1536,7 @@ def engines(tier, seed):
             run_review,
             kind="E1",
             chunk=6,
-            rule="honest PSBTs for wallets {2-of-3, 1-of-2} (thorough {1-of-2, 2-of-2, 2-of-3, 3-of-5}) x {P2SH via create_multisig_psbt, P2WSH via PSBT.create+lookups} x 1..2 inputs x {spend, spend+change, batch+change}, summarised with an explicit cosigner map and with the PSBT's own global xpubs; every single tampering of a ~24-entry byte-level catalogue (thorough: all pairs for two wallets); oracle: raise, or arithmetic identities + every output labelled change satisfies the independent rule recomputed with a reference BIP32; tamperings that contradict the transaction must raise",
+            rule="honest PSBTs for wallets {2-of-3, 1-of-2} (thorough {1-of-2, 2-of-2, 2-of-3, 3-of-5}) x {P2SH via create_multisig_psbt, P2WSH via PSBT.create+lookups} x 1..2 inputs x {spend, spend+change, batch+change, batch with two outputs paying the same address + change}, summarised with an explicit cosigner map and with the PSBT's own global xpubs; every single tampering of a ~24-entry byte-level catalogue (thorough: all pairs for two wallets); oracle: raise, or arithmetic identities + every output labelled change satisfies the independent rule recomputed with a reference BIP32; tamperings that contradict the transaction must raise",
         ),
         Engine(
             "shapes",
